@@ -107,7 +107,7 @@ WORKER_ARGS = {
 }
 
 
-def verify_first(rep, u, rule='INV-5'):
+def verify_first(rep, u, rule='INV-5', only=None):
     lb = dict((n, fn) for n, fn, _ in u.method_table('LB_methods'))
     vb = dict((n, fn) for n, fn, _ in u.method_table('VB_methods'))
     missing = sorted(set(lb) - set(vb))
@@ -115,7 +115,7 @@ def verify_first(rep, u, rule='INV-5'):
            'every LookupBase entry point is overridden in VerifyingBase '
            '(missing: %s)' % missing, construct='coverage')
     for name, fn in sorted(vb.items()):
-        if name == 'changed':
+        if name == 'changed' or (only is not None and name not in only):
             continue
         worker = WORKERS.get(name)
         if worker is None:
@@ -183,12 +183,20 @@ def c05(rep):
     inv2_c(rep, u)
     verify_first(rep, u)
     verify_compare(rep, u)
+    verify_snapshot_c(rep, u, 'INV-5')
     fills(rep, u)
 
 
 def c06(rep):
     u = cu(rep)
-    # R06.5 snapshot shape in C
+    verify_snapshot_c(rep, u, 'R06.5')
+    verify_first(rep, u, rule='R06.6')
+    verify_compare(rep, u, rule='R06.6')
+
+
+def verify_snapshot_c(rep, u, rule):
+    """snapshot shape in C (verify_changed): every registry above the
+    verifying one, and the generations of exactly those"""
     RO = 'PyObject_GetAttr(PyObject_GetAttr(self, str_registry), strro)'
     # tuple(ro): calling the tuple type with one argument IS PySequence_Tuple
     TS = ['PyObject_CallFunctionObjArgs(&PyTuple_Type, %s, NULL)' % RO,
@@ -210,15 +218,13 @@ def c06(rep):
                 st.get('self->_verify_ro'):
             p_gen.append('_verify_generations = `%s`'
                          % (st.get('self->_verify_generations') or 'unset')[:90])
-    ccheck(rep, 'R06.5', 'verify_changed', not p_snap and n >= 1,
+    ccheck(rep, rule, 'verify_changed', not p_snap and n >= 1,
            '_verify_ro = tuple(self._registry.ro)[1:]' if not p_snap else
            {'problems': sorted(set(p_snap))[:3]}, construct='snapshot')
-    ccheck(rep, 'R06.5', 'verify_changed', not p_gen and n >= 1,
+    ccheck(rep, rule, 'verify_changed', not p_gen and n >= 1,
            'generations are taken from exactly the registries stored in _verify_ro'
            if not p_gen else {'problems': sorted(set(p_gen))[:3]},
            construct='generations')
-    verify_first(rep, u, rule='R06.6')
-    verify_compare(rep, u, rule='R06.6')
 
 
 def name_guard_c(rep, u, rule, fn, first_uses):
